@@ -73,7 +73,7 @@ func TestC03_SelfCertifying(t *testing.T) {
 
 		// (b) single known-field modification
 		m := b.clone()
-		mod := rapid.IntRange(0, 11).Draw(t, "modification")
+		mod := rapid.IntRange(0, 12).Draw(t, "modification")
 		label := ""
 		deltaChange := false
 		switch mod {
@@ -130,6 +130,11 @@ func TestC03_SelfCertifying(t *testing.T) {
 			}
 			m.SuffixData["deltaHash"] = alt
 			label, deltaChange = "suffix-delta-hash-respelled", true
+		case 12:
+			// a well-formed multihash of the right algorithm over a prefix (possibly empty) of the delta's digest
+			d := refDigest(alg, []byte(refJCS(m.Delta)))
+			m.SuffixData["deltaHash"] = b64(refMultihashBytes(alg, d[:rapid.SampledFrom([]int{0, 0, 1, 4, 16, len(d) - 1}).Draw(t, "shortLen")]))
+			label, deltaChange = "suffix-delta-hash-shortened", true
 		case 11:
 			// exactly one string is the hash of the delta: every edit of it is not
 			how := ""
